@@ -8,8 +8,10 @@ git -C /repo worktree add -q --detach $wt HEAD || exit 3
 git -C $wt apply /verif/seeded/$id/patch.diff || { echo "patch does not apply"; git -C /repo worktree remove --force $wt; exit 3; }
 cp /repo/Cargo.lock $wt/Cargo.lock
 cd /verif
+mkdir -p work/logs
+: > work/logs/recheck-$id.txt
 for c in "$@"; do
-  VERIF_REPO=$wt ./verif check $c --tier ${SEED_TIER:-quick} 2>/dev/null | grep -E "^(VIOLATION|INCONCLUSIVE|$c:)" | cut -c1-400
+  VERIF_REPO=$wt ./verif check $c --tier ${SEED_TIER:-quick} 2>/dev/null | grep -E "^(VIOLATION|INCONCLUSIVE|$c:)" | cut -c1-400 | tee -a work/logs/recheck-$id.txt
 done
 tag=alt-$(python3 -c "import hashlib,sys;print(hashlib.sha1(sys.argv[1].encode()).hexdigest()[:10])" $wt)
 rm -rf work/target-$tag work/target-$tag-rs work/driver-$tag work/rs/$tag work/py/$tag
